@@ -1045,6 +1045,73 @@ def c19_browse_listener_gone(ctx):
     return q.result()
 
 
+def c20_not_for_us_paths(ctx):
+    q = Q("c20_not_for_us_paths", ["DnsCache::add_or_update"],
+          "every explored path of add_or_update (opaque map/vector calls, first loop iterations); is_for_us arbitrary",
+          ["map and vector calls are opaque: only which calls happen under which guard is decided"])
+    f = ctx.funcs[ctx.fn("::add_or_update", lambda fn: fn.args and fn.args[0][1] == "&mut DnsCache")]
+    forus = z3.Bool("is_for_us")
+    ex = Explorer(ctx.funcs, ctx.consts, max_paths=3000)
+    paths = [p for p in ex.explore(f.name, args=[None, None, None, None, BoolV(forus)]) if p.outcome == "return"]
+    if ex.cut_paths:
+        q.unknown.append("path budget exhausted")
+    n_sub, n_drop = 0, 0
+    for i, p in enumerate(paths):
+        calls = [e for e in p.events if e[0] == "call"]
+        sub_ins = [e for e in calls if e[1].startswith("HashMap::<String, String>::insert")]
+        if sub_ins:
+            n_sub += 1
+            q.valid(p.cond, forus, f"path {i}: the instance->subtype map only grows for records that are for us")
+        empt = [e for e in p.events if e[0] == "ret" and e[1].endswith("Vec::<DnsRecordIntf>::is_empty")]
+        vec_ins = [e for e in calls if e[1].startswith("Vec::<DnsRecordIntf>::insert")]
+        if vec_ins and empt and isinstance(empt[0][2], BoolV):
+            # a record is stored: either it is for us, or the name already had records
+            q.valid(p.cond, z3.Or(forus, z3.Not(empt[0][2].e)), f"path {i}: a record is only stored if it is for us or refreshes a name we already hold")
+        if empt and isinstance(empt[0][2], BoolV) and not vec_ins:
+            r0 = q.d.check(p.cond + [z3.Not(forus), empt[0][2].e], f"path {i}: unsolicited-and-unknown case?")[0]
+            if r0 == "sat":
+                n_drop += 1
+                later = [e[1].split("::")[-1] for e in calls if e[1].split("::")[-1] in ("set_expire", "push", "reset_ttl")]
+                if later:
+                    q.fail.append(("an unsolicited record of an unknown name still changes cache state", f"path {i}: {later}"))
+    if n_sub == 0 or n_drop == 0:
+        q.unknown.append(f"expected subtype-insert paths and drop paths (found {n_sub}/{n_drop})")
+    else:
+        q.nontrivial += 2
+    return q.result()
+
+
+def c20_txt_evicted_without_srv(ctx):
+    q = Q("c20_txt_evicted_without_srv", ["DnsCache::evict_expired_services"],
+          "explored paths of evict_expired_services (first iteration of each loop, opaque map calls)", ["map calls are opaque"])
+    f = ctx.funcs[ctx.fn("::evict_expired_services")]
+    ex = Explorer(ctx.funcs, ctx.consts, max_paths=3000)
+    paths = ex.explore(f.name)
+    ok = 0
+    seen_gm = 0
+    for p in paths:
+        ev = p.events
+        gms = [j for j, e in enumerate(ev) if e[0] == "call" and e[1].split("::")[-1].startswith("get_mut") and "HashMap" in e[1]]
+        if len(gms) < 2:
+            continue
+        seen_gm += 1
+        # discriminant examined right after the first get_mut (SRV entry of the instance)
+        d = [e for e in ev[gms[0]:gms[1]] if e[0] == "discr"]
+        if not d:
+            continue
+        srv_none = q.d.check(p.cond + [d[0][3].e != 0], "srv entry absent?")[0] == "unsat"
+        retains_after = [e for e in ev[gms[1]:] if e[0] == "call" and e[1].split("::")[-1].startswith("retain")]
+        if srv_none and retains_after:
+            ok += 1
+    if seen_gm == 0:
+        q.unknown.append("the SRV/TXT map look-ups were not reached")
+    elif ok == 0:
+        q.fail.append(("expired TXT records of an instance are only evicted while the instance still has an SRV entry (they stay for ever once the SRV is gone)", "no path evicts TXT when the SRV look-up finds nothing"))
+    else:
+        q.nontrivial += ok
+    return q.result()
+
+
 def z3_vars(e):
     out, seen, stack = [], set(), [e]
     while stack:
@@ -1243,4 +1310,5 @@ SPECS = {
     "C12": [c12_poll_timeout, c12_ipcheck_rearm, c12_hostname_timeout_timer, c12_conflict_probe_timer, c12_tiebreak_retry_timer, c11_cache_flush_rule, c05_verify_deadline],
     "C19": [c19_browse_backoff, c19_hostname_backoff, c19_resolve_retry, c19_initial_delay, c19_rerun_due, c19_browse_listener_gone],
     "C08": [c08_tiebreak_count_operands],
+    "C20": [c20_not_for_us_paths, c20_txt_evicted_without_srv, c05_evict_predicate],
 }
